@@ -144,6 +144,14 @@ func (c *countingWriter) WriteHeader(code int) {
 }
 
 func (d *Driver) do(req *http.Request) *RawResponse {
+	raw := Serve(d.H, req)
+	d.LastRaw = raw
+	return raw
+}
+
+// Serve runs one request through handler h and records status, Location, body, the number of WriteHeader
+// calls and a panic, if any.
+func Serve(h http.Handler, req *http.Request) *RawResponse {
 	rec := &countingWriter{ResponseRecorder: httptest.NewRecorder()}
 	raw := &RawResponse{Method: req.Method, URL: req.URL.String(), Header: req.Header.Clone()}
 	func() {
@@ -152,13 +160,12 @@ func (d *Driver) do(req *http.Request) *RawResponse {
 				raw.Panic = fmt.Sprintf("%v\n%s", r, debug.Stack())
 			}
 		}()
-		d.H.ServeHTTP(rec, req)
+		h.ServeHTTP(rec, req)
 	}()
 	raw.Status = rec.Code
 	raw.Location = rec.Header().Get("Location")
 	raw.Body = rec.Body.String()
 	raw.Writes = rec.writes
-	d.LastRaw = raw
 	return raw
 }
 
